@@ -308,7 +308,8 @@ def gen_ops(rng, kn, n, depth=0):
             return ref()
 
         if r < 0.10:
-            op = ["sym", rng.choice(["x", "y", "z"]), rng.choice(kn["types"])]
+            # (an untyped request means the context's default type, whatever was declared under that name before)
+            op = ["sym", rng.choice(["x", "y", "z"]), rng.choice(kn["types"]) if rng.random() < 0.8 else None]
         elif r < 0.10 + kn["p_const"]:
             lk = rng.random()
             like = ref() if lk < 0.6 else (["t", rng.choice(kn["types"])] if lk < 0.8 else None)
@@ -691,6 +692,10 @@ class Sim:
         ctx, Expr = self.ctx, self.Expr
         t = op[0]
         if t == "sym":
+            if op[2] is None:
+                name = op[1]
+                default = self.case.get("default_constant_type") or "float"
+                return (lambda: ctx.symbol(name)), (lambda r: self.check_symbol(r, name, default))
             name, typ = op[1], decode_type(op[2])
             return (lambda: ctx.symbol(name, typ)), (lambda r: self.check_symbol(r, name, typ))
         if t == "const":
@@ -755,7 +760,7 @@ class Sim:
     def record_tree(self, op, res):
         """Request trees of arithmetic roots, for the observable-consequence check."""
         if op[0] == "sym":
-            if op[2] in ("float", "float64", "py:float"):
+            if op[2] in ("float", "float64", "py:float") or (op[2] is None and not self.case.get("default_constant_type")):
                 self.req_tree[id(res)] = ("s", op[1], op[2])
         elif op[0] == "op" and op[1] in ARITH:
             sub = []
